@@ -51,6 +51,73 @@ func main() {
 		}
 		samples.Add(fmt.Sprintf("keys=%d values=%d iterators<=%d: states=%d transitions=%d depth=%d fixpoint=%v", c.keys, c.vals, c.iters, st.States, st.Transitions, st.Depth, st.Fixpoint))
 	}
+	// long deterministic histories (free lists, rings, batches of a fixed size have to be outgrown): 40 keys filled, drained
+	// and filled again, read back through Get / First / a full iteration after every phase; and one key re-added 40 times
+	// while an open iterator pins each removed generation
+	long := func(name string, keys, iters int, script func(do func(maph.Op))) {
+		s := maph.New(keys, 1, iters)
+		n := 0
+		failed := false
+		script(func(o maph.Op) {
+			if failed {
+				return
+			}
+			n++
+			if sig, det := s.Apply(o); sig != "" {
+				failed = true
+				run.Violation("map-long "+sig, fmt.Sprintf("%s, step %d: %s", name, n, det), map[string]any{"script": name, "step": n})
+			}
+		})
+		trans += int64(n)
+		samples.Add(fmt.Sprintf("long history %q: %d operations", name, n))
+	}
+	long("fill 40, drain, fill 40", 40, 2, func(do func(maph.Op)) {
+		readBack := func() {
+			do(maph.Op{K: "len"})
+			do(maph.Op{K: "first"})
+			do(maph.Op{K: "iter", A: 0})
+			for i := 0; i < 42; i++ {
+				do(maph.Op{K: "has", A: 0})
+				do(maph.Op{K: "next", A: 0})
+			}
+			do(maph.Op{K: "close", A: 0})
+			for k := 0; k < 40; k++ {
+				do(maph.Op{K: "get", A: k})
+			}
+		}
+		for round := 0; round < 3; round++ {
+			for k := 0; k < 40; k++ {
+				do(maph.Op{K: "add", A: k, V: 1})
+			}
+			readBack()
+			for k := 39; k >= 0; k-- {
+				do(maph.Op{K: "rem", A: k})
+			}
+			readBack()
+		}
+	})
+	long("one key, 40 generations each pinned by an iterator", 1, 41, func(do func(maph.Op)) {
+		for g := 0; g < 40; g++ {
+			do(maph.Op{K: "add", A: 0, V: 1})
+			do(maph.Op{K: "iter", A: g})
+			do(maph.Op{K: "has", A: g})
+			do(maph.Op{K: "rem", A: 0})
+		}
+		do(maph.Op{K: "add", A: 0, V: 1})
+		do(maph.Op{K: "get", A: 0})
+		do(maph.Op{K: "first"})
+		for g := 0; g < 40; g++ {
+			do(maph.Op{K: "next", A: g})
+			do(maph.Op{K: "close", A: g})
+		}
+		for g := 0; g < 40; g++ {
+			do(maph.Op{K: "rem", A: 0})
+			do(maph.Op{K: "add", A: 0, V: 1})
+		}
+		do(maph.Op{K: "get", A: 0})
+		do(maph.Op{K: "len"})
+		do(maph.Op{K: "first"})
+	})
 	samples.Add("example history: Add(a,0); Iterator; Remove(a); Add(a,1); Next(it0); Close(it0); First")
 	run.Assume = []string{"nodes parked in the map's sync.Pool are not part of the state key; a recycled node only matters through a stale refCnt, which the refCnt invariant pins to the number of parked iterators in every state"}
 	run.Finish(ev.Coverage{
